@@ -387,6 +387,7 @@ func (x *Explorer) beginPath(prefix []int64) {
 	x.chooses = nil
 	x.randBudget, x.randCount = 0, 0
 	mapOrderReverse = mapOrderBase
+	gzReadChunk = 0
 	lastPanicWhere = ""
 	x.lemmaSqAbs = false
 	x.pathSteps = 0
